@@ -7,6 +7,7 @@ import (
 	"encoding/json"
 	"fmt"
 	"math/big"
+	"reflect"
 	"sort"
 	"strings"
 	"time"
@@ -103,7 +104,51 @@ func validUTF8JSON(b []byte) bool {
 	return !strings.Contains(string(b), "\uFFFD") && !strings.Contains(string(b), `\ufffd`)
 }
 
+// c25OperatorSpellings: an operator the evaluators do not know is not an error, it makes its condition false
+// (documented), and it stays what it is through serialization - also when it differs from a known operator only
+// in letter case or surrounding blanks. Round trip through encoding/json and evaluation before and after.
+func c25OperatorSpellings(c *Ctx) {
+	spellings := []string{"eq", "Eq", " EQ", "EQ ", "between", "Not_In", " IN", "in", "lte", "gt ", "ne", "not_between", "LIKE", "", "BOGUS"}
+	blocks := []bs.DataBlockMetadata{
+		{PartitionID: "a", MinMaxIndexes: map[string]bs.MinMaxIndex{"n": {Min: 1, Max: 5}}},
+		{PartitionID: "b", MinMaxIndexes: map[string]bs.MinMaxIndex{"n": {Min: -3, Max: 40}}},
+	}
+	for _, sp := range spellings {
+		op := bs.QueryOperator(sp)
+		exprs := []bs.PrefilterExpression{
+			bs.MinMax("n", bs.NumericCondition{Operator: op, Value: 3, Values: []int64{1, 3, 40}, Min: 0, Max: 10}),
+			bs.Partition(bs.StringCondition{Operator: op, Value: "a", Values: []string{"a", "b"}, Min: "a", Max: "b"}),
+		}
+		exprs = append(exprs, bs.PrefilterOr(exprs[0], bs.PrefilterAnd(exprs[1])))
+		for k, e := range exprs {
+			q := bs.NewQuery().MatchPrefilter(e).Build()
+			raw, err := json.Marshal(q)
+			if err != nil {
+				c.violation("c25-operator-spelling", fmt.Sprintf("a query with operator %q does not serialize: %v", sp, err), nil)
+				continue
+			}
+			var back bs.Query
+			if err := json.Unmarshal(raw, &back); err != nil {
+				c.violation("c25-operator-spelling", fmt.Sprintf("a serialized query with operator %q does not decode: %v", sp, err), map[string]any{"json": string(raw)})
+				continue
+			}
+			desc := map[string]any{"kind": "operator-spelling", "operator": sp, "shape": k, "json": string(raw)}
+			c.count([]string{"C25"}, fmt.Sprintf("opsp-%q-%d", sp, k), true, desc)
+			if !reflect.DeepEqual(q.Prefilter, back.Prefilter) {
+				c.violation("c25-operator-spelling", fmt.Sprintf("operator %q is not the same after a JSON round trip of the query", sp), desc)
+				continue
+			}
+			for i := range blocks {
+				if a, b := bs.EvaluateDataBlockMetadata(&blocks[i], q.Prefilter), bs.EvaluateDataBlockMetadata(&blocks[i], back.Prefilter); a != b {
+					c.violation("c25-operator-spelling", fmt.Sprintf("operator %q: the decoded query evaluates to %v on a block where the original evaluates to %v", sp, b, a), desc)
+				}
+			}
+		}
+	}
+}
+
 func runC25(c *Ctx) {
+	c25OperatorSpellings(c)
 	c.rep.Rule = "constructors: And/Or, RegexAnd/RegexOr, PrefilterAnd/PrefilterOr on 0-4 random children (nested same-type nodes, nil/empty/unknown nodes) compared structurally with the model's flattening; " +
 		"builder: random chains of Field/Token/FieldToken/Match/FieldRegex/MatchRegex/MatchPrefilter + Build compared structurally with the model state machine and by evaluation with the nested conjunction; " +
 		"JSON: json.Marshal shape (parsed by the harness's independent parser) and json.Unmarshal result compared with the model codec; every original/derived pair is also evaluated on random rows, blocks and a live engine. " +
